@@ -436,10 +436,9 @@ func checkC05(p *Prog, r *Result, tier string) {
 		return
 	}
 	var reqObj, plansObj, planVar types.Object
-	var loop *ast.RangeStmt
+	var loop *elemLoop
 	A.inspectBody(func(n ast.Node) bool {
-		switch x := n.(type) {
-		case *ast.AssignStmt:
+		if x, ok := n.(*ast.AssignStmt); ok {
 			if len(x.Rhs) == 1 && len(x.Lhs) == 1 {
 				if c, ok := unparen(x.Rhs[0]).(*ast.CallExpr); ok {
 					if f := A.Callee(c); f != nil && G != nil && f == G.Obj && len(c.Args) > 0 {
@@ -448,10 +447,10 @@ func checkC05(p *Prog, r *Result, tier string) {
 					}
 				}
 			}
-		case *ast.RangeStmt:
-			if plansObj != nil && A.objOf(x.X) == plansObj && x.Value != nil {
-				loop, planVar = x, A.objOf(x.Value)
-			}
+		}
+		// the loop over the plans, with a range value or an index (`plan := plans[i]`)
+		if el := elemLoopOf(A, n); el != nil && plansObj != nil && A.objOf(el.list) == plansObj && el.elem != nil {
+			loop, planVar = el, el.elem
 		}
 		return true
 	})
@@ -471,7 +470,7 @@ func checkC05(p *Prog, r *Result, tier string) {
 	}
 	nLit := 0
 	// the literals of the plan loop, or of a constructor helper called there (its parameters stand for the arguments)
-	for _, site := range p.litsVia(A, loop.Body, func(owner *FuncNode, cl *ast.CompositeLit) bool {
+	for _, site := range p.litsVia(A, loop.body, func(owner *FuncNode, cl *ast.CompositeLit) bool {
 		t := owner.typeOf(cl)
 		return t != nil && (strings.HasSuffix(t.String(), "cpumem/types.WorkloadResource") || strings.HasSuffix(t.String(), "cpumem/types.EngineParams"))
 	}) {
@@ -498,7 +497,7 @@ func checkC05(p *Prog, r *Result, tier string) {
 		}
 	}
 	if nLit == 0 {
-		r.undecided("SRC2", A.Name, p.pos(loop), "no WorkloadResource literal in the plan loop")
+		r.undecided("SRC2", A.Name, p.pos(loop.stmt), "no WorkloadResource literal in the plan loop")
 	}
 }
 
